@@ -120,8 +120,11 @@ pub struct Plan {
 }
 
 const DIRS: [&str; 5] = ["", "d", "d/e", "src", "deep/er/est"];
-const NAMES: [&str; 8] = [
+const NAMES: [&str; 13] = [
     "a.txt", "b.rs", "c", "sp ace.md", "ünï.txt", "Makefile", "x.y.z", "+odd-name",
+    // ordinary bytes on Linux, special elsewhere (a backslash is left out: the implementation
+    // reports changed paths with '\\' rewritten to '/', which the path model does not mirror)
+    "-dash.txt", "a..b", "..hidden", "we:ird", "quo\"te",
 ];
 const NEWPATHS: [&str; 10] = [
     "new.txt",
